@@ -98,6 +98,8 @@ def bounded(ctx):
             rec = CircularRecord(Seq(s), id="rid", name="rn", features=bc.build_features(feats),
                                  annotations={"topology": "circular", "molecule_type": "DNA"},
                                  letter_annotations={"q": list(range(n))})
+            if ti % 2:
+                bc.preuse(rec, ns)       # every other record has been searched / sliced / rotated before
             for k in range(0, n):
                 evals += 1
                 base = rec >> k
